@@ -604,6 +604,14 @@ def _scenario_case(case, rng, seed, enc):
             "ParzenWindowClassifier", "kernel,gamma=mean", True, seen=_seen_of(K, Ys), votes=True,
             concrete=conc("ParzenWindowClassifier(metric_dict={'gamma': 'mean'}, class_prior=%s) on %s" % (p0, sub),
                           X=np.asarray(Xs).tolist(), y=ys, W=Ws))
+    # (kernels that can be negative - 'linear', odd polynomials - are no Parzen windows: negative "frequencies")
+    for metric, md in (("polynomial", {"degree": 2, "coef0": 1.0}), ("rbf", {"gamma": 2.0}), ("laplacian", None)):
+        clf = ParzenWindowClassifier(metric=metric, metric_dict=md, n_neighbors=3, classes=declared, missing_label=miss,
+                                     cost_matrix=cm, class_prior=float(p0), random_state=seed)
+        run("PWC-%s-nn3" % metric, clf, lambda clf=clf: clf.fit(X, y, W), "ParzenWindowClassifier",
+            "kernel,metric=%s" % metric, True, votes=True, prefit=pf,
+            concrete=conc("ParzenWindowClassifier(metric=%r, metric_dict=%r, n_neighbors=3, class_prior=%s)"
+                          % (metric, md, p0)))
     # MixtureModelClassifier
     for mode in ("responsibilities", "similarities"):
         clf = MixtureModelClassifier(mixture_model=BayesianGaussianMixture(n_components=2, random_state=0),
@@ -656,6 +664,15 @@ def _scenario_case(case, rng, seed, enc):
     run("ALR", clf, lambda: clf.fit(X2, y2, W2), "AnnotatorLogisticRegression",
         "weights=%s,all-samples-labeled=%s" % ("given" if W2 is not None else "None", full), False,
         seen=seen2, prefit=(lambda c: c.fit(X2, y2_all)) if y2_all is not None else None, concrete=conc("AnnotatorLogisticRegression()", y=y2, W=W2))
+    # parameter sweep: documented non-default values of the remaining constructor parameters
+    clf = AnnotatorLogisticRegression(classes=declared, missing_label=miss, cost_matrix=cm, random_state=seed,
+                                      fit_intercept=False, annot_prior_full=2, annot_prior_diag=1, weights_prior=0.5,
+                                      tol=1e-3, max_iter=20)
+    run("ALR-params", clf, lambda clf=clf: clf.fit(X2, y2, W2), "AnnotatorLogisticRegression",
+        "no-intercept,priors", False, seen=seen2,
+        prefit=(lambda c: c.fit(X2, y2_all)) if y2_all is not None else None,
+        concrete=conc("AnnotatorLogisticRegression(fit_intercept=False, annot_prior_full=2, annot_prior_diag=1, "
+                      "weights_prior=0.5, tol=1e-3, max_iter=20)", y=y2, W=W2))
     if empty:
         clf = AnnotatorLogisticRegression(n_annotators=2, classes=declared, missing_label=miss, cost_matrix=cm,
                                           random_state=seed)
